@@ -8,7 +8,7 @@
 (* walk goes on (report-and-resync); <<"VDONE", lines, ops, nbad>> is       *)
 (* printed when every line has been consumed.                               *)
 (***************************************************************************)
-EXTENDS Ops, Gray, BitKernels, Json, IOUtils, SequencesExt
+EXTENDS Ops, Gray, BitKernels, JCF, Json, IOUtils, SequencesExt
 
 Tr == ndJsonDeserialize(IOEnv.TRACE)
 N == Len(Tr)
@@ -184,8 +184,32 @@ WordKernelOK(ev) ==
          /\ BitsAt(p.L_back) = low                       \* mutually inverse
     [] op = "lesser_lsb" -> ev.ret = LesserLSB(BitsAt(p.L_a), BitsAt(p.L_b))
 
+\* file I/O (C18)
+IOFamily == {"png_roundtrip", "from_str", "jcf", "png_foreign"}
+Rejected(out) == out \in {"null", "die", "terminated"}
+IOOK(ev) ==
+  LET op == ev.op  p == ev.p IN
+  CASE op = "png_roundtrip" -> ev.ret = 0 /\ HasR(ev) /\ Eq(Post(ev.o[Len(ev.o)]), Pre(O(ev, 1)))
+    [] op = "from_str" ->
+         HasR(ev) /\ Eq(Post(ev.o[Len(ev.o)]),
+                         Mat(p.m, p.n, [i \in 0 .. p.m - 1 |-> {j \in 0 .. p.n - 1 : (i * p.n + j) \in ToSet(p.ones)}]))
+    [] op = "jcf" ->
+         LET P == Parse(p.toks, p.gpos)
+             got == IF p.out = "matrix" THEN Post(ev.o[Len(ev.o)]) ELSE Zero(0, 0) IN
+         /\ p.san = 0 /\ p.out \notin {"crash", "huge"}
+         /\ (IF P.k = "matrix" THEN p.out = "matrix" /\ Eq(got, P.M)
+             ELSE IF P.k = "reject" THEN Rejected(p.out)
+             ELSE Rejected(p.out) \/ (p.out = "matrix" /\ Eq(got, P.M)))
+    [] op = "png_foreign" ->
+         LET supported == p.depth = 1 /\ p.ctype \in {0, 3} /\ p.interlace = 0
+             got == IF p.out = "matrix" THEN Post(ev.o[Len(ev.o)]) ELSE Zero(0, 0) IN
+         /\ p.san = 0 /\ p.out \notin {"crash", "huge"}
+         /\ (p.out = "matrix" => supported /\ got.m = p.h /\ got.n = p.w)
+         /\ (p.mut = 0 /\ supported => p.out = "matrix")
+
 ResultOK(ev) ==
   CASE ev.op \in MulFamily -> MulOK(ev)
+    [] ev.op \in IOFamily -> IOOK(ev)
     [] ev.op \in WordKernelFamily -> WordKernelOK(ev)
     [] ev.op \in AlgFamily -> AlgOK(ev)
     [] ev.op \in MoveFamily -> MoveOK(ev)
@@ -193,7 +217,7 @@ ResultOK(ev) ==
     [] ev.op \in ObsFamily -> ObsOK(ev)
     [] OTHER -> TRUE
 
-Known(ev) == ev.op \in MulFamily \cup MoveFamily \cup RowOpsFamily \cup ObsFamily \cup AlgFamily \cup WordKernelFamily
+Known(ev) == ev.op \in MulFamily \cup MoveFamily \cup RowOpsFamily \cup ObsFamily \cup AlgFamily \cup WordKernelFamily \cup IOFamily
 
 Checks(ev) ==
   IF ev.die = 1
